@@ -14,6 +14,7 @@ import (
 	"fmt"
 	"os"
 	"path/filepath"
+	"reflect"
 	"regexp"
 	"slices"
 	"sort"
@@ -21,6 +22,7 @@ import (
 	"testing"
 	"testing/synctest"
 	"time"
+	"unsafe"
 
 	nodestate "github.com/yandex/mysync/internal/app/node_state"
 	"github.com/yandex/mysync/internal/dcs"
@@ -637,6 +639,26 @@ func (h *H) AppState(a *App) string {
 	}
 	if a.dcs != nil {
 		fmt.Fprintf(&b, " dcs[%s]", dcs.VerifState(a.dcs))
+	}
+	// the membership the process has cached (decisions taken without the coordination service use it)
+	if a.cluster != nil {
+		hh, cc := a.cluster.HANodeHosts(), a.cluster.CascadeNodeHosts()
+		sort.Strings(hh)
+		sort.Strings(cc)
+		fmt.Fprintf(&b, " members=%v/%v", hh, cc)
+	}
+	// every field of App this function does not know by name (a cache or counter a change may have
+	// added decides futures too: left out, the searches would merge states that differ only in it)
+	known := map[string]bool{"state": true, "logger": true, "loggerCloser": true, "sysLog": true, "config": true, "dcs": true, "appDCS": true,
+		"cluster": true, "filelock": true, "t": true, "slaveReadPositions": true, "daemonState": true, "daemonMutex": true, "replRepairState": true,
+		"externalReplication": true, "switchHelper": true, "lostQuorumTime": true, "optSyncer": true, "optController": true, "offlineModeFilter": true,
+		"lagResetupper": true}
+	rv := reflect.ValueOf(a).Elem()
+	rt := rv.Type()
+	for i := 0; i < rt.NumField(); i++ {
+		if name := rt.Field(i).Name; !known[name] {
+			fmt.Fprintf(&b, " %s=%s", name, dcs.VerifRenderField(reflect.NewAt(rt.Field(i).Type, unsafe.Pointer(rv.Field(i).UnsafeAddr()))))
+		}
 	}
 	return b.String()
 }
